@@ -554,6 +554,9 @@ def selftest(chk):
         (mut(lambda ev: swap(ev, 1, 2)), "PositionAdvances"),                            # swap seek and read
         (mut(lambda ev: ev[-1][1].__setitem__(20, 99)), "FinalMemory"),                  # a neighbour's byte changed
         (mut(lambda ev: ev[1].__setitem__(6, [3])), "SeekFromStart"),
+        # a deliberately wrong abstract state: a shorter view / another initial memory than the real one
+        (dict(good, end=15), "TruncatedAtEnd"),
+        (dict(good, mem=[0] * WIN), "FinalMemory"),
     ]
     rej = chk.validate("FileViewTrace", "FileViewTrace.cfg", [c[0] for c in cases])
     got = {id(t): cl for t, _, cl in rej}
